@@ -2,7 +2,7 @@
 from vlib import standard_pipeline, standard_replay, finish
 
 RULE = ("TLC enumerates every operation history of length <= MaxOps over the op alphabet of RespHeaders (set/append/remove of two "
-        "standard and one custom header with values of different lengths, cookies, four body kinds, drop_content, statuses) x {GET, HEAD}; "
+        "standard and one custom header with values of different lengths, cookies, four payload kinds and a one-event stream, drop_content, statuses) x {GET, HEAD}; "
         "the harness adds seeded random histories of 8-40 operations over all standard headers; non-trivial = the history removes a "
         "header (or drops the content) and later sets it again, or ends with the content dropped, or mixes append with set")
 
@@ -14,7 +14,8 @@ def nontrivial(o):
 def run(ctx):
     q = ctx.quick
     mc = [("MC_RespHeaders", "MC_RespHeaders.cfg" if q else "MC_RespHeaders_deep.cfg", dict(workers=6, coverage=not q)),
-          ("MC_RespHeaders", "MC_RespHeaders_slotonly.cfg", dict(workers=2, expect_violation=True))]
+          ("MC_RespHeaders", "MC_RespHeaders_slotonly.cfg", dict(workers=2, expect_violation=True)),
+          ("MC_RespHeaders", "MC_RespHeaders_stalete.cfg", dict(workers=2, expect_violation=True))]
     if q:
         gen = [("RespHeadersGen", "Gen_RespHeaders.cfg", dict(workers=1))]
     else:
